@@ -24,9 +24,12 @@ RULE = ("cases = (i) best/archive operations on real populations (transition tou
 
 def run(ctx):
     q = ctx.quick
-    memlib.unit(ctx, ["update_best", "archive_update", "archive_into_population"])
+    memlib.unit(ctx, ["update_best", "init_run", "archive_update", "archive_into_population"])
     runlib.run_templates(ctx, ["C07"], seeds=[ctx.seed, ctx.seed + 1, ctx.seed + 2] if q else list(range(ctx.seed, ctx.seed + 25)),
                          iters=[4] if q else [1, 8, 30])
+    # chemical reactions drop the products of rejected reactions: long runs with many rejected reactions
+    runlib.run_templates(ctx, ["C07"], seeds=list(range(ctx.seed, ctx.seed + (6 if q else 40))), iters=[40] if q else [150],
+                         name="cro-runs", templates=["real_cro"], quick_grid=False)
     return ctx.finish(RULE)
 
 
